@@ -185,6 +185,12 @@ def gen_builtin_scenario(rnd, sid):
         g.kinds[i] = kind
         shared.append(i)
     for p in (a, b):
+        if rnd.random() < 0.4:
+            # a formatter upstream of the built-ins: they decide on the message, not on the line made of it
+            f = g.nid()
+            g.ops.append({"op": "new", "id": f, "d": {"kind": "fmt", "mode": rnd.choice(["const", "const", "wrap", "attr"]),
+                                                      "tag": rnd.choice([[70], [91], []]), "key": rnd.choice(KEYS)}})
+            g.ops.append({"op": "append", "p": p, "h": f, "via": "append"})
         for h in shared:
             if rnd.random() < 0.8:
                 g.ops.append({"op": "append", "p": p, "h": h, "via": "append"})
